@@ -328,8 +328,8 @@ var hostile = map[string][]string{
 		"data: {\"choices\":[{\"delta\":{\"content\":\"cr only\"}}]}\r\rdata: [DONE]\r",
 		"event: error\ndata: {\"error\":{\"message\":\"overloaded\"}}\n\n", "data: {\"error\":{\"message\":\"boom\",\"type\":\"server_error\"}}\n\n", "retry: 10\nid: 5\n: c\n\n",
 		"data: {\"choices\":[{\"delta\":{\"content\":\"" + longA + "\"}}]}\n\n", // > 1 MiB line: scanner error
-		"data: " + longA[:1<<20-7] + "\n",                                     // line of exactly the scanner maximum - 1
-		"data: " + longA[:1<<20-6] + "\n",                                     // exactly the maximum
+		"data: " + longA[:1<<20-7] + "\n",                                       // line of exactly the scanner maximum - 1
+		"data: " + longA[:1<<20-6] + "\n",                                       // exactly the maximum
 		strings.Repeat("data: {\"choices\":[{\"delta\":{\"content\":\"x\"}}]}\n\n", 20000),
 		strings.Repeat("\n", 100000), strings.Repeat("data: \n", 50000), "data: " + deepArr + "\n\n", "data: {\"choices\":" + deepArr + "}\n\n",
 		"\x00data: {}\n", "data: {}\x00\n", bom + "data: {\"choices\":[{\"delta\":{\"content\":\"bom\"}}]}\n\n", "DATA: {}\n\n", " data: {}\n\n", "data:\t{}\n\n",
